@@ -164,6 +164,8 @@ class UnitRegistry:
             tex_repr = r"\rm{" + symbol.replace("_", r"\ ") + "}"
 
         # Add to lut
+        if symbol in self.lut:
+            self._forget_prefixed(symbol)
         self.lut[symbol] = (base_value, dimensions, offset, tex_repr, prefixable)
 
     def remove(self, symbol):
